@@ -10,7 +10,22 @@
 #ifndef OPS
 #define OPS 0x7f            /* compile-time set of operations the harness may choose from */
 #endif
-#define HAS(o) ((OPS >> (o)) & 1)
+/* optional per-position operation sets OPS0..OPS3 (default: OPS at every position); the loop is unrolled with a concrete
+   position, so operations outside a position's set are pruned statically */
+#ifndef OPS0
+#define OPS0 OPS
+#endif
+#ifndef OPS1
+#define OPS1 OPS
+#endif
+#ifndef OPS2
+#define OPS2 OPS
+#endif
+#ifndef OPS3
+#define OPS3 OPS
+#endif
+#define OPSET(i) ((i) == 0 ? (OPS0) : (i) == 1 ? (OPS1) : (i) == 2 ? (OPS2) : (OPS3))
+#define HAS(o) ((OPSET(i) >> (o)) & 1)
 static struct S_class_2eFIX8_3a_3aFilePersister the_fp;
 static uint64_t sess_raw[1024];                         /* the Session is an opaque handle here (address + next-send number): raw zeroed storage */
 static struct S_class_2eFIX8_3a_3aSession *the_sess;
